@@ -37,6 +37,9 @@ type Case struct {
 	// Versions, when present, are the protocol versions in force (first genesis must be 0); every operation is
 	// applied under the version its protocol-version stamp (CaseOp.PV) selects. Empty = one version.
 	Versions []VersionSpec `json:"versions,omitempty"`
+	// ForeignAdditional: the caller-supplied additional operations also hold the create operation of ANOTHER DID
+	// (anchored before everything else), once filed under its own suffix and once under this DID's suffix
+	ForeignAdditional bool `json:"foreignAdditional,omitempty"`
 	// AsOf, if non-zero, asks (in checks that support it) additionally for the state as of that time: the resolution
 	// with that version time must be the state machine's state over the operations with time <= AsOf
 	AsOf uint64 `json:"asOf,omitempty"`
